@@ -287,6 +287,33 @@ def run(tier, pid):
                         observed=tr["obs"],
                     )
 
+    selftested = []
+
+    def selftest(batch):
+        """Binding self-test: corrupted copies of a real observation must fail the corresponding clause."""
+        import copy
+
+        probe = next(
+            (t for t in batch if len(t["obs"]["ran"]) >= 3 and t["obs"]["details"] and t["obs"]["flav"][0]["outcome"] in ("failure", "error")),
+            None,
+        )
+        if probe is None:
+            return
+        c1 = copy.deepcopy(probe)
+        c1["obs"]["flav"][0]["names"] = ["startTest", "stopTest"]
+        c2 = copy.deepcopy(probe)
+        c2["obs"]["ran"] = list(reversed(c2["obs"]["ran"]))
+        c3 = copy.deepcopy(probe)
+        c3["obs"]["flav"][0]["outcome"] = "success"
+        c4 = copy.deepcopy(probe)
+        c4["obs"]["details"] = []
+        v = validate(rep, [c1, c2, c3, c4])
+        got = [v[1]["c01_bracket"], v[2]["c02_order"], v[3]["c03_sound"], v[4]["c05_details"]]
+        if any(got):
+            raise tlc.MachineryError("corrupted lifecycle traces were accepted (bracket, order, sound, details) = %r" % (got,))
+        selftested.append(True)
+        rep.extra["trace_selftest"] = "4 corrupted copies of a recorded run rejected by c01_bracket / c02_order / c03_sound / c05_details"
+
     batch = []
     for cfg, flavours, kw in plan:
         for p in export_programs(rep, cfg, **kw):
@@ -297,8 +324,12 @@ def run(tier, pid):
             # 3. run the real code
             batch.append(observe(p, flavours))
             if len(batch) >= 20000:
+                if not selftested:
+                    selftest(batch)
                 judge(batch)
                 batch = []
+    if not selftested:
+        selftest(batch)
     judge(batch)
 
     # 5. executions nobody here constructed: the repository's own suite under the TESTTOOLS_VERIF hooks
